@@ -132,6 +132,59 @@ def run_env_legacy(case, idx):
             "sros": [[i, w.nums(s.__sro__)] for i, s in enumerate(w.specs)]}
 
 
+class Obj:
+    """plain stand-in: ro.ro only needs ``__bases__`` (such objects get in whatever the setting is)"""
+    def __init__(self, bases):
+        self.__bases__ = tuple(bases)
+
+
+def _call(f):
+    try:
+        return f()
+    except ro.InconsistentResolutionOrderError:
+        return None
+
+
+def run_env_settings(case, idx, which):
+    """process started with ZOPE_INTERFACE_STRICT_IRO=1 (which='strict') or ..._USE_LEGACY_IRO=1
+    ('legacy').  variant 'objs': stand-in objects mirroring the DAG (node 0 has no bases);
+    variant 'ifaces': real interfaces; when the strict setting refuses a creation the interface is created
+    without bases and the bases are assigned afterwards (the assignment raises but the new bases stay)."""
+    assert (ro.C3.STRICT_IRO if which == "strict" else ro.C3.USE_LEGACY_IRO), "environment expected"
+    import logging
+    logging.disable(logging.CRITICAL)
+    if case["variant"] == "objs":
+        nodes = [Obj(())]
+        for nd in case["nodes"]:
+            nodes.append(Obj([nodes[b] for b in nd["bases"]]))
+    else:
+        nodes = [Interface]
+        for i, nd in enumerate(case["nodes"], 1):
+            bases = tuple(nodes[b] for b in nd["bases"])
+            try:
+                s = InterfaceClass("E%d_%d" % (idx, i), bases, {})
+            except ro.InconsistentResolutionOrderError:
+                s = InterfaceClass("E%d_%d" % (idx, i), (), {})
+                try:
+                    s.__bases__ = bases
+                except ro.InconsistentResolutionOrderError:
+                    pass
+            nodes.append(s)
+    ids = {id(n): i for i, n in enumerate(nodes)}
+
+    def nums(seq):
+        return None if seq is None else [ids[id(x)] for x in seq]
+
+    graph = [[i, nums(n.__bases__)] for i, n in enumerate(nodes)]
+    obs = []
+    for i, n in enumerate(nodes):
+        cons = _call(lambda: bool(ro.is_consistent(n)))
+        obs.append([i, nums(_call(lambda: ro.ro(n, strict=False, use_legacy_ro=False))),
+                    nums(_call(lambda: ro.ro(n, strict=True, use_legacy_ro=False))),
+                    nums(_call(lambda: ro.ro(n))), cons])
+    return {"graph": graph, "obs": obs}
+
+
 def main():
     payload = _boot.read_payload()
     out = []
@@ -141,6 +194,8 @@ def main():
                 out.append(run_env_strict(case, idx))
             elif payload.get("env_legacy"):
                 out.append(run_env_legacy(case, idx))
+            elif payload.get("env_settings"):
+                out.append(run_env_settings(case, idx, payload["env_settings"]))
             else:
                 out.append(run_case(case, idx))
         except Exception as e:  # reported as data
